@@ -217,7 +217,7 @@ def check(pid, tier, seed):
         log("[%s] graph %s: %d states / %d edges, %d paths" % (pid, cfgname, len(g.states), len(g.edges), len(meta)))
     if drifts:
         log("DRIFT property=%s %d of %d replayed paths deviate from PoolImpl; first: %s" % (pid, len(drifts), npaths, drifts[0]))
-    ycount = {"quick": 1500, "thorough": 30000}[tier]
+    ycount = {"quick": 1500, "thorough": 200000}[tier]
     ys, ycfgs = y_scripts(seed, ycount)
     yres = common.run_harness(exe, ys)
     for xid, recs in yres.items():
